@@ -211,6 +211,12 @@ impl Check for AuditReplica {
     type Case = AuditCase;
     const NAME: &'static str = "audit_replica";
 
+    fn normalise(mut case: AuditCase) -> AuditCase {
+        case.defs = crate::props::world::normalise_defs(case.defs, true);
+        case
+    }
+
+
     fn strategy(tier: Tier) -> BoxedStrategy<AuditCase> {
         let max = match tier {
             Tier::Quick => 30,
